@@ -58,8 +58,10 @@ func (er *ExchangeRate) Validate() error {
 
 // Convert performs the currency conversion defined by the exchange rate.
 func (er *ExchangeRate) Convert(amount num.Amount) num.Amount {
-	a := amount.Multiply(er.Amount)
 	z := er.To.Def().Zero()
+	// amounts with fewer decimals than the destination currency, like yen,
+	// must not lose the subunits of the result
+	a := amount.RescaleUp(z.Exp()).Multiply(er.Amount)
 	return a.Rescale(z.Exp()) // ensure scale always matches destination currency
 }
 
